@@ -69,8 +69,15 @@ def program(draw, emphasis='c01'):
         else:
             mode = draw(st.sampled_from(['await', 'await', 'await', 'leave', 'stop']))
             end_at = when()
-        runner = draw(st.sampled_from(['run', 'run', 'run', 'manual']))
-        threads.append({'runner': runner, 'callers': callers, 'end': {'mode': mode, 'at': end_at}})
+        runner = draw(st.sampled_from(['run', 'run', 'run', 'manual'] if emphasis == 'c01'
+                                      else ['run', 'run', 'run', 'manual', 'resume']))
+        th = {'runner': runner, 'callers': callers, 'end': {'mode': mode, 'at': end_at}}
+        if runner == 'resume':
+            # (C01 excludes restarting a loop with a call pending; C05/C06 do not)
+            th['pause'] = draw(st.sampled_from([U, 0.25, 1.0, 70.0]))
+            if mode == 'await':
+                th['end'] = {'mode': draw(st.sampled_from(['leave', 'stop'])), 'at': end_at}
+        threads.append(th)
     return {'cache': draw(st.sampled_from(['default', 'default', 'mapping'])),
             'threads': threads, 'plans': plans}
 
@@ -123,6 +130,8 @@ def structure(case, hist):
         cl.append('caller-cancelled')
     if any(t['runner'] == 'manual' for t in case['threads']):
         cl.append('manual-close')
+    if any(t['runner'] == 'resume' for t in case['threads']):
+        cl.append('loop-resumed')
     if hist['forced']:
         cl.append('schedule-deviated')
     return cl
@@ -138,7 +147,9 @@ def valid(case):
             if p['outcome'] not in ('ret', 'raise') or not (-1 <= p['dur'] <= 2):
                 return False
         for t in case['threads']:
-            if t['runner'] not in ('run', 'manual') or t['end']['mode'] not in ('await', 'leave', 'stop'):
+            if t['runner'] not in ('run', 'manual', 'resume') or t['end']['mode'] not in ('await', 'leave', 'stop'):
+                return False
+            if t.get('pause', 0) < 0:
                 return False
             if t['end']['at'] < 0:
                 return False
@@ -164,7 +175,7 @@ def simplify(case):
                     n = copy.deepcopy(case)
                     n['threads'][ti]['callers'][ci][fld] = None
                     yield n
-        if t['runner'] == 'manual':
+        if t['runner'] in ('manual', 'resume'):
             n = copy.deepcopy(case)
             n['threads'][ti]['runner'] = 'run'
             yield n
